@@ -8,6 +8,7 @@ must not grow it); every element read must log exactly the post-order of the mod
 list created so far is re-checked after each operation (same length, same callables) and fully evaluated at the end.
 """
 import itertools
+import os
 
 import numpy as np
 
@@ -327,10 +328,12 @@ class FakePopen(object):
                 self.W, self.H, self.FPS_FRACTION[0], self.FPS_FRACTION[1], self.N / fps * self.DURATION_FACTOR, self.N)
             self.stdout = _FakeStream(txt.encode())
             return
+        # two different synthetic videos: the one whose file name contains "B" shows frame k as k + 100
+        self.offset = 100 if any(os.path.basename(c).startswith("vidB") for c in cmd) else 0
         start = 0
         if "-ss" in cmd:
             start = int(round(float(cmd[cmd.index("-ss") + 1]) * self.FPS_FRACTION[0] / float(self.FPS_FRACTION[1])))
-        data = b"".join(bytes([(k + c) % 256 for _ in range(self.W * self.H) for c in range(3)]) for k in range(start, self.N))
+        data = b"".join(bytes([(k + self.offset + c) % 256 for _ in range(self.W * self.H) for c in range(3)]) for k in range(start, self.N))
         self.stdout = _FakeStream(data)
 
     def poll(self):
@@ -409,4 +412,62 @@ def w_video(ctx, rng, i):
     ctx.count_case(("video", tuple(ops), FakePopen.FPS_FRACTION, FakePopen.DURATION_FACTOR), nontrivial=len(ops) >= 1, sample={"video_ops": ops} if i < 2 else None)
 
 
-WORKLOADS = [Workload("program", w_program, quick=60000, thorough=2000000), Workload("video", w_video, quick=1500, thorough=60000)]
+def w_video_pair(ctx, rng, i):
+    """Two video files imported through the public importer, each frame annotated by a landmark resolver: element k of
+    either list is frame k of *that* video with the landmarks of frame k, whatever was read from the other list before;
+    reading an element asks the resolver about that frame only."""
+    import tempfile, shutil
+    import menpo.io as mio
+    import menpo.shape as ms
+    V = taps.mod("menpo.io.input.video")
+    real = V.sp.Popen
+    V.sp.Popen = FakePopen
+    FakePopen.FPS_FRACTION, FakePopen.DURATION_FACTOR = (25, 1), 1.0
+    tmp = tempfile.mkdtemp(prefix="vf-c19-")
+    asked = []
+
+    def resolver(path, frame):
+        asked.append((os.path.basename(str(path)), int(frame)))
+        return {"f": ms.PointCloud(np.array([[float(frame), float(frame) + 0.5]]))}
+    try:
+        pa, pb = os.path.join(tmp, "vidA.mp4"), os.path.join(tmp, "vidB.mp4")
+        for p_ in (pa, pb):
+            open(p_, "wb").write(b"not really a video")
+        la = mio.import_video(pa, landmark_resolver=resolver, normalize=False)
+        lb = mio.import_video(pb, landmark_resolver=resolver, normalize=False)
+        if asked:
+            ctx.fail("operation_evaluated_something", cls="LazyList", mech="import_video_called_the_resolver")
+        N = FakePopen.N
+        both = {"A": (la, 0, "vidA.mp4"), "B": (lb, 100, "vidB.mp4")}
+        if rng.random() < 0.5:
+            k0 = int(rng.integers(0, N - 8))
+            both["A+B"] = (la[k0:k0 + 4] + lb[k0:k0 + 4], None, None)
+        for step in range(int(rng.integers(6, 20))):
+            which = ["A", "B"][rng.integers(0, 2)] if "A+B" not in both or rng.random() < 0.7 else "A+B"
+            ll, off, fname = both[which]
+            if which == "A+B":
+                j = int(rng.integers(0, 8))
+                k = k0 + j % 4
+                off, fname = (0, "vidA.mp4") if j < 4 else (100, "vidB.mp4")
+            else:
+                # overlapping recent indices in the two lists
+                j = k = int(rng.integers(0, 6)) if rng.random() < 0.7 else int(rng.integers(0, N))
+            n0 = len(asked)
+            img = ll[j]
+            ctx.tap("video_element_read", "calls"); ctx.tap("video_element_read", "checked")
+            got = frame_id(img)
+            if got != (k + off) % 256:
+                ctx.fail("element_value_depends_on_what_was_read_before", cls="LazyList", mech="two_videos", got=got, expected=(k + off) % 256, which=which)
+            lm = img.landmarks["f"].points if img.has_landmarks and "f" in img.landmarks else None
+            if lm is None or float(lm[0, 0]) != float(k):
+                ctx.fail("element_value_differs_from_list_model", cls="LazyList", mech="landmarks_of_another_frame", got=None if lm is None else lm.tolist(), expected=k)
+            if asked[n0:] != [(fname, k)]:
+                ctx.fail("element_read_evaluated_wrong_things", cls="LazyList", mech="resolver_asked_about_other_frames", asked=asked[n0:][:4], expected=[fname, k])
+    finally:
+        V.sp.Popen = real
+        shutil.rmtree(tmp, ignore_errors=True)
+    ctx.count_case(("video_pair", "A+B" in both), nontrivial=True)
+
+
+WORKLOADS = [Workload("program", w_program, quick=60000, thorough=2000000), Workload("video", w_video, quick=1500, thorough=60000),
+             Workload("video_pair", w_video_pair, quick=300, thorough=10000)]
